@@ -78,8 +78,8 @@ def _rv(x):
     return z3.RealVal(f"{f.numerator}/{f.denominator}")
 
 
-LN = z3.Function('ln', z3.RealSort(), z3.RealSort())
-EXP = z3.Function('exp', z3.RealSort(), z3.RealSort())
+LN = z3.Function('pgv_ln', z3.RealSort(), z3.RealSort())
+EXP = z3.Function('pgv_exp', z3.RealSort(), z3.RealSort())
 
 _CUR = None  # current engine
 _INF = float('inf')
@@ -601,7 +601,7 @@ class Engine:
             return all(self.is_pos(c, depth + 1) for c in ch)
         if k == z3.Z3_OP_POWER:
             return self.is_pos(ch[0], depth + 1)
-        if k == z3.Z3_OP_UNINTERPRETED and e.decl().name() == 'exp':
+        if k == z3.Z3_OP_UNINTERPRETED and e.decl().name() == 'pgv_exp':
             return True
         return False
 
